@@ -4,7 +4,7 @@ from . import sched as SC
 PROPERTY = "C02"
 META = {
     "bounds": {"quick": "one loop iteration of each scheduler from an ARBITRARY state fi in [fmin,fmax), N>=8 symbolic and unbounded, all configuration parameters symbolic; start computation: generic k-th iteration from the proved invariant start=k*shift (ltf/lpsd, N unbounded), literal unrolling for N<=12 with unwinding assertion, generic-element array [0,m,m+1,K-1] for the vectorised schedulers (N unbounded); SpectrumAnalyzer.plan() validation on symbolic plans of nf<=2 bins, K<=3",
-               "thorough": "literal unrolling for N<=24"},
+               "thorough": "literal unrolling for N<=24; whole plans of ltf/lpsd executed path by path (fork mode, every branch and loop test decided per path, budget 80 paths) at N=8, Jdes=1 (power exact), Lmin in {2,4}, fs=1 with olap, bmin, Kdes<=6 symbolic"},
     "outside": ["IEEE ties/rounding in the scheduler arithmetic (exact reals here)", SC.POW_FACTS + " (abstraction of the power; counterexamples are replayed on real plans)",
                 "the lookup grid of vectorized_ltf_plan is abstracted to a generic adjacent pair g0<f<=g1=rho*g0"],
     "stubs": ["(N/2)**(1/Jdes) -> uninterpreted application with the facts above", "round_half_up -> proved summary floor(v+1/2)", "np.logspace/np.searchsorted -> generic adjacent grid pair (searchsorted contract, side='left')", "np.arange(K) for symbolic K -> generic-element array"],
@@ -30,6 +30,19 @@ def ob_vec(W, part, fork_ifs=False, prior=False):
 
 def ob_new(W, part):
     return SC.ob_new(W, part)
+
+
+def ob_whole_plan(W, sched, N, Jdes, Lmin, fs_value=None):
+    return SC.ob_whole_plan(W, sched, N, Jdes, Lmin, fs_value)
+
+
+def whole_plan_obligations(obs, tier, prefix):
+    """thorough tier: whole plans of the iterative schedulers explored path by path at the smallest admissible record length"""
+    if tier != "thorough":
+        return
+    for sched, Lmin in (("ltf", 2), ("ltf", 4), ("lpsd", 1)):
+        obs.append({"name": "%s/whole-plan/N8-J1-Lmin%d" % (sched, Lmin), "fn": "ob_whole_plan", "params": {"sched": sched, "N": 8, "Jdes": 1, "Lmin": Lmin, "fs_value": 1},
+                    "fork": True, "max_paths": 80, "timeout": 20, "limit": 2400, "weight": 30, "only": [prefix + "/*"], "vacuity": False})
 
 
 def ob_plan(W, **kw):
@@ -64,4 +77,5 @@ def obligations(tier):
     for Ks in ([[1], [2], [3, 1], [2, 2]] if tier == "quick" else [[1], [2], [3], [1, 1], [3, 1], [2, 2], [1, 3], [3, 3]]):
         obs.append({"name": "plan/K%s" % "-".join(map(str, Ks)), "fn": "ob_plan", "params": {"Ks": Ks}, "fork": True, "max_paths": 200, "timeout": to})
     obs.append({"name": "plan/lpsd/K2-1", "fn": "ob_plan", "params": {"Ks": [2, 1], "sched_is_lpsd": True}, "fork": True, "max_paths": 200, "timeout": to})
+    whole_plan_obligations(obs, tier, "C02")
     return obs
